@@ -1,5 +1,139 @@
-import MpVerif.C02.Model
+import MpVerif.C02.LemmasTop
+/-!
+# C02 — property theorems
+
+Model: `readNL data flags objsel` (MpVerif/C02/Model.lean) = `mp::ReadNLString` over the bytes `data`
+(text, binary native, binary byte-swapped; `flags` bit 0 = READ_BOUNDS_FIRST; `objsel` = the handler's
+objective filter).  Property predicate: `Consistent` (MpVerif/C02/ModelCheck.lean).
+All theorems quantify over every byte string, every flag value and every objective filter.
+-/
 namespace MpVerif.C02
-/-- placeholder while the real theorems are being written -/
-theorem C02_emit_appends (e : Ev) (s : PState) : emit e s = .ok () { s with evs := e :: s.evs } := rfl
+
+theorem finish_consistent {strict : Bool} {h : Header} (p : P Unit) (s : PState)
+    (hs : Sat strict h p s (fun _ s' => ∃ c, chkRev strict h s'.evs = some c ∧ Finished c)) :
+    Consistent strict (finish h (p s)) = true := by
+  unfold Sat at hs
+  cases hres : p s with
+  | ok a s1 =>
+    rw [hres] at hs
+    obtain ⟨c, hc, hd, hst, hv⟩ := hs
+    simp [finish, Consistent, ← chkRev_eq_run, hc, hd, hst, hv, Outcome.isOk]
+  | err e evs =>
+    rw [hres] at hs
+    unfold Good at hs
+    simp only [finish, Consistent, ← chkRev_eq_run]
+    cases hc : chkRev strict h evs with
+    | none => simp [hc] at hs
+    | some c => simp [Outcome.isOk]
+  | ub u evs =>
+    rw [hres] at hs
+    unfold Good at hs
+    simp only [finish, Consistent, ← chkRev_eq_run]
+    cases hc : chkRev strict h evs with
+    | none => simp [hc] at hs
+    | some c => simp [Outcome.isOk]
+  | fuel => simp [finish, Consistent, run, Outcome.isOk]
+
+/-- **C02 (consistency).**  Whatever bytes are read, with or without READ_BOUNDS_FIRST, in text, native
+    binary or byte-swapped binary form: everything delivered to the handler — including the prefix
+    delivered before a read error — is consistent with the header delivered first (indices in declared
+    ranges, announced counts honoured exactly, Begin/End properly nested and matched, well-formed postfix
+    expression stream, `EndInput` last and only after everything is closed).  With a handler that needs
+    every objective (`objsel = none`) in the strict sense; with an objective filter in the sense that
+    tolerates the expression of a skipped `O` segment being delivered and dropped. -/
+theorem C02_consistent (data : ByteArray) (flags : Nat) (objsel : Option Nat) :
+    Consistent objsel.isNone (readNL data flags objsel) = true := by
+  have hso : objsel.isNone = true → objsel = none := by cases objsel <;> simp
+  unfold readNL
+  simp only []
+  split
+  · rfl
+  · rfl
+  · rename_i h r _
+    split
+    · exact finish_consistent _ _ (readBody_ok ⟨⟨data⟩, .text, h, flags, objsel⟩ hso r)
+    split
+    · exact finish_consistent _ _ (readBody_ok ⟨⟨data⟩, .bin false, h, flags, objsel⟩ hso r)
+    split
+    · exact finish_consistent _ _ (readBody_ok ⟨⟨data⟩, .bin true, h, flags, objsel⟩ hso r)
+    · simp [Consistent, run, Outcome.isOk]
+
+/-- the same for the handler that needs every objective, spelled out -/
+theorem C02_consistent_all_objectives (data : ByteArray) (flags : Nat) :
+    Consistent true (readNL data flags none) = true := C02_consistent data flags none
+
+/-- what `Consistent` gives for a single notification: its indices are inside the header's ranges -/
+def evInRange (h : Header) : Ev → Prop
+  | .obj i _ => i < h.num_objs
+  | .algCon i => i < h.num_algebraic_cons
+  | .logCon i => i < h.num_logical_cons
+  | .beginCommonExpr i _ => i < h.num_common_exprs
+  | .complementarity con var _ => con < h.num_algebraic_cons ∧ var < h.num_vars
+  | .linearObj i n => i < h.num_objs ∧ 1 ≤ n ∧ n ≤ h.num_vars
+  | .linearCon i n => i < h.num_algebraic_cons ∧ 1 ≤ n ∧ n ≤ h.num_vars
+  | .addTerm v _ => v < h.num_vars
+  | .varBounds i _ _ => i < h.num_vars
+  | .conBounds i _ _ => i < h.num_algebraic_cons
+  | .initVal i _ => i < h.num_vars
+  | .initDual i _ => i < h.num_algebraic_cons
+  | .function i _ _ t => i < h.num_funcs ∧ t ≤ 1
+  | .intSuffix _ kind n => kind ≤ 3 ∧ 1 ≤ n ∧ n ≤ h.suffixItems kind
+  | .dblSuffix _ kind n => kind ≤ 3 ∧ 1 ≤ n ∧ n ≤ h.suffixItems kind
+  | .varRef i => i < h.num_vars
+  | .commonRef i => i < h.num_common_exprs
+  | .beginCall f _ => f < h.num_funcs
+  | _ => True
+
+theorem step_inRange {strict : Bool} {h : Header} {c c' : CState} {e : Ev}
+    (hs : step strict h c e = some c') : evInRange h e := by
+  unfold step at hs
+  split at hs
+  · cases hs
+  · cases e <;> simp only [stepCore] at hs <;> simp only [evInRange]
+    all_goals try trivial
+    all_goals repeat' split at hs
+    all_goals simp_all
+
+theorem run_inRange {strict : Bool} {h : Header} :
+    ∀ (evs : List Ev) (c c' : CState), run strict h c evs = some c' → ∀ e ∈ evs, evInRange h e := by
+  intro evs
+  induction evs with
+  | nil => intro c c' _ e he; cases he
+  | cons x xs ih =>
+    intro c c' hr e he
+    simp only [run] at hr
+    cases hx : step strict h c x with
+    | none => simp [hx] at hr
+    | some c1 =>
+      rw [hx] at hr
+      rcases List.mem_cons.mp he with rfl | hmem
+      · exact step_inRange hx
+      · exact ih c1 c' hr e hmem
+
+/-- **C02 (indices).**  Every index in every notification is inside the range declared by the header
+    that was delivered first — for every input, every mode, also for the prefix before an error. -/
+theorem C02_indices_in_range (data : ByteArray) (flags : Nat) (objsel : Option Nat) (h : Header)
+    (hh : (readNL data flags objsel).header = some h) :
+    ∀ e ∈ (readNL data flags objsel).evs, evInRange h e := by
+  have hc := C02_consistent data flags objsel
+  unfold Consistent at hc
+  rw [hh] at hc
+  simp only at hc
+  cases hr : run objsel.isNone h CState.init (readNL data flags objsel).evs with
+  | none => simp [hr] at hc
+  | some c => exact run_inRange _ _ _ hr
+
+/-- nothing is delivered unless the header was: no header ⇒ no notification, and not a normal return -/
+theorem C02_header_first (data : ByteArray) (flags : Nat) (objsel : Option Nat)
+    (hh : (readNL data flags objsel).header = none) :
+    (readNL data flags objsel).evs = [] ∧ (readNL data flags objsel).outcome ≠ .ok := by
+  have hc := C02_consistent data flags objsel
+  unfold Consistent at hc
+  rw [hh] at hc
+  simp at hc
+  refine ⟨hc.1, ?_⟩
+  intro ho
+  rw [ho] at hc
+  simp [Outcome.isOk] at hc
+
 end MpVerif.C02
